@@ -244,9 +244,12 @@ def run_case(case):
         bdur = 0.3
         ns = int(3.6 * fs)
         d = scratch()
-        rec = G.make(rng, kind="3B2", sites=G.draw_sites(rng, "3B2", n, "dense"), ns=ns, raw=np.zeros((1, 1), np.int16))
+        ci = case.get("_orig_i", case["_i"])
+        fkind = ["3B2", "NP2.1", "3B2", "NP2.4"][ci % 4]                  # every generation (its own volts-per-bit path) ...
+        fnsync = [1, 0, 1, 1][(ci // 2) % 4]                                # ... and recordings saved without the sync channel
+        rec = G.make(rng, kind=fkind, sites=G.draw_sites(rng, fkind, n, "dense"), ns=ns, raw=np.zeros((1, 1), np.int16), nsync=fnsync)
         s2v = rec.s2v[:n]
-        raw = np.zeros((ns, n + 1), np.int16)
+        raw = np.zeros((ns, n + fnsync), np.int16)
         starts = [int(t0 * fs) for t0 in np.linspace(0, ns / fs - bdur, nb)]
         often, seldom = int(rng.integers(8, 28)), int(rng.integers(62, 88))      # channel faulty in 7 of 10 batches / in 3 of 10 batches
         kind_often, kind_seldom = str(rng.choice(["dead", "noisy"])), str(rng.choice(["dead", "noisy"]))
@@ -263,7 +266,10 @@ def run_case(case):
         for t0 in np.linspace(0, ns / fs - bdur, nb):
             seg_bounds.append((int(t0 * fs), int((t0 + bdur) * fs)))
         filler = background(rng, n, ns, fs)
-        raw[:, :n] = np.clip(np.round(filler.T / s2v[None, :]), -32768, 32767).astype(np.int16)
+        # rows of the signal arrays below are in the READER's channel order (sorted by shank, row, column - what detect_bad_channels_cbin analyses and what
+        # its labels are indexed by); column order[j] of the file holds row j
+        order = np.asarray(rec.order, int)
+        raw[:, order] = np.clip(np.round(filler.T / s2v[order][None, :]), -32768, 32767).astype(np.int16)
         for b, (s0, s1) in enumerate(seg_bounds):
             seg = background(rng, n, s1 - s0, fs)
             for ch, kd, present in ((often, kind_often, b in in7), (seldom, kind_seldom, b in in3), (mixed, mixed_state[b], mixed_state[b] != "clean")):
@@ -272,11 +278,11 @@ def run_case(case):
                         seg[ch] = rng.standard_normal(s1 - s0) * 1e-7
                     else:
                         seg[ch] += rng.standard_normal(s1 - s0) * 200e-6
-            raw[s0:s1, :n] = np.clip(np.round(seg.T / s2v[None, :]), -32768, 32767).astype(np.int16)
+            raw[s0:s1, order] = np.clip(np.round(seg.T / s2v[order][None, :]), -32768, 32767).astype(np.int16)
         rec.raw = raw
         b = G.write(rec, d)
         use_c = bool(case.get("_orig_i", case["_i"]) % 2)          # compressed and flat recordings alternate (both in every run)
-        label = f"file mode: ch {often} {kind_often} in 7/10 batches, ch {seldom} {kind_seldom} in 3/10 batches, {'cbin' if use_c else 'bin'}"
+        label = f"file mode ({fkind}, {fnsync} sync channel): ch {often} {kind_often} in 7/10 batches, ch {seldom} {kind_seldom} in 3/10 batches, {'cbin' if use_c else 'bin'}"
         import spikeglx
         try:
             if use_c:
@@ -321,7 +327,7 @@ def run_case(case):
                     s0, s1 = seg_bounds[k]
                     m = min(a.shape[1], s1 - s0) - 2
                     # batches are spread over the whole file: batch k is the k-th evenly spaced excerpt
-                    exp_k = (raw[s0:s0 + m, :n].astype(np.float32) * rec.s2v[:n].astype(np.float32)[None, :]).T
+                    exp_k = (raw[s0:s0 + m, order].astype(np.float32) * rec.s2v[order].astype(np.float32)[None, :]).T
                     okk = any(a.shape[1] >= m + sh and np.allclose(a[:, sh:sh + m], exp_k, rtol=1e-6, atol=0) for sh in (0, 1))
                     res.check(okk, "file:batch-position", f"{label}: batch {k} is not the excerpt starting at sample {s0} (+-1) of the file")
                 srx.close()
